@@ -126,6 +126,20 @@ func (e *Exec) crashInvariants(c *chainlib.Node, tag string) {
 			e.violate("crash-ledger-flags", fmt.Sprintf("%s: block %d InTrunk=%v height=%d, main chain membership %v, trunk height %d", tag, i, hd.InTrunk, hd.Height, onPath[i], m.TrunkHeight), "")
 		}
 	}
+	// transactions of main-chain blocks map to their main-chain block
+	for b := range onPath {
+		for _, ti := range w.Blocks[b].Txs {
+			tx := w.Txs[ti].Tx
+			ct, err := c.L.QueryTransaction(tx.Txid)
+			if err != nil || e.bidx(ct.Blockid) != b || !c.L.IsTxInTrunk(tx.Txid) {
+				got := -1
+				if err == nil {
+					got = e.bidx(ct.Blockid)
+				}
+				e.violate("crash-ledger-tx-mapping", fmt.Sprintf("%s: tx %d of main-chain block %d maps to block %d, IsTxInTrunk=%v", tag, ti, b, got, c.L.IsTxInTrunk(tx.Txid)), "")
+			}
+		}
+	}
 	// ---- state at its persisted pointer
 	ptr := e.bidx(c.S.GetLatestBlockid())
 	if ptr < 0 {
